@@ -1189,6 +1189,21 @@ def op_x_marsh(req):
     x = xd()
     v = build_shared(req["value"])
     out = {"value": canon(v)}
+    # a container handed back by loads belongs to the caller: filling it must not change what the next loads returns
+    try:
+        for empty in ([], {}, set()):
+            a_ = x.marsh.loads(marshal.dumps(empty, 2))
+            if isinstance(a_, list):
+                a_.append(1)
+            elif isinstance(a_, dict):
+                a_[1] = 2
+            elif isinstance(a_, set):
+                a_.add(1)
+            b_ = x.marsh.loads(marshal.dumps((empty, (), empty), 2))
+            if canon(b_) != canon((empty, (), empty)):
+                out["aliasing"] = "after filling a loaded empty %s, loads of (empty, (), empty) gives %r" % (type(empty).__name__, b_)
+    except Exception as e:
+        out["aliasing"] = "raised %s: %s" % (type(e).__name__, e)
     try:
         b = x.marsh.dumps(v)
         out["dumps_type"] = type(b).__name__
@@ -1612,6 +1627,14 @@ def op_x_std(req):
             compare_streams(kind, what, ref, got)
         if kind == "exccode":
             continue        # (a big synthetic object: only the handler marks are of interest; the iterator is quadratic)
+        if kind in ("function", "code") and fl is None:
+            try:
+                rb, gb = dis.Bytecode(obj), xs.Bytecode(obj)
+                list(rb), list(gb)
+                gb.dis()
+                compare_streams(kind, "Bytecode", list(rb), list(gb))          # a second pass over the same objects
+            except Exception as e:
+                fails.append(["Bytecode(second pass)|%s|raised|%s" % (kind, type(e).__name__), "second iteration raised %s" % e])
         for what, rf, xf in (("code_info", lambda: dis.code_info(obj), lambda: xs.code_info(obj)),
                              ("dis", lambda: dis.dis(obj, file=__import__("io").StringIO()), lambda: xs.dis(obj, file=__import__("io").StringIO()))):
             try:
@@ -1752,6 +1775,11 @@ def _globals_digest():
             except Exception as e:
                 d[attr] = "undigestable:%s" % type(e).__name__
         out[name] = d
+    # interpreter-wide settings a library call has no business changing
+    out["<interpreter>"] = {"recursionlimit": str(sys.getrecursionlimit()),
+                            "int_max_str_digits": str(sys.get_int_max_str_digits()) if hasattr(sys, "get_int_max_str_digits") else "n/a",
+                            "stdout_is_original": str(sys.stdout is not None), "displayhook": str(sys.displayhook is sys.__displayhook__),
+                            "excepthook": str(sys.excepthook is sys.__excepthook__)}
     return out
 
 
@@ -1872,7 +1900,14 @@ def do_hist_op(op):
                 if len(c.co_code) < 600:
                     list(x.bytecode.Bytecode(c, opc))
             second = [[[a, b] for a, b in opc.findlinestarts(c)] for c in x_walk_codes(t[3])][:30]
-            return {"first": _digest(first), "second": _digest(second), "n": len(first)}
+            # ... and one Bytecode object (with a first_line) listed twice
+            d1, d2 = [], []
+            for c in list(x_walk_codes(t[3]))[:6]:
+                if len(c.co_code) < 600 and hasattr(c, "co_firstlineno"):
+                    b = x.bytecode.Bytecode(c, opc, first_line=1000)
+                    d1.append(_norm_addr(b.dis()))
+                    d2.append(_norm_addr(b.dis()))
+            return {"first": _digest([first, d1]), "second": _digest([second, d2]), "n": len(first)}
         if k == "labels":
             t = x.load.load_module(fpath(op["f"]))
             opc = x.disasm.get_opcode(t[0], t[4])
